@@ -74,6 +74,11 @@ class Subject(Observable[_T], Observer[_T], abc.SubjectBase[_T]):
 
         with self.lock:
             self.check_disposed()
+            if not self.is_stopped:
+                # Known before the subject counts as stopped: an observer
+                # subscribing right now must not take a failed subject
+                # for a completed one.
+                self.exception = error
         super().on_error(error)
 
     def _on_error_core(self, error: Exception) -> None:
